@@ -311,7 +311,7 @@ func runTLSBinary(r *ev.Run, g tlsBinGroup, rng *rand.Rand, all bool) {
 			return err
 		}
 		defer conn.Close()
-		if _, err := pb.NewClusterClient(conn).Status(ctx, &pb.StatusRequest{}); err != nil {
+		if err := checkIdentity(ctx, conn, in); err != nil {
 			return err
 		}
 		_, err = pb.NewTablesClient(conn).List(ctx, &pb.ListTablesRequest{})
@@ -396,10 +396,29 @@ func readyPlain(tablesToken string) func(ctx context.Context, in *instance) erro
 			return err
 		}
 		defer conn.Close()
-		if _, err := pb.NewClusterClient(conn).Status(ctx, &pb.StatusRequest{}); err != nil {
+		if err := checkIdentity(ctx, conn, in); err != nil {
 			return err
 		}
 		_, err = pb.NewTablesClient(conn).List(bearerCtx(ctx, tablesToken), &pb.ListTablesRequest{})
 		return err
 	}
+}
+
+// checkIdentity makes sure the server answering on the port is the process this driver started
+// (its memberlist node name is unique per start): with "listen on :0, close, reuse" ports a
+// foreign server could otherwise be mistaken for ours after a lost port race.
+func checkIdentity(ctx context.Context, conn *grpc.ClientConn, in *instance) error {
+	if _, err := pb.NewClusterClient(conn).Status(ctx, &pb.StatusRequest{}); err != nil {
+		return err
+	}
+	ml, err := pb.NewClusterClient(conn).MemberList(ctx, &pb.MemberListRequest{})
+	if err != nil {
+		return err
+	}
+	for _, m := range ml.Members {
+		if m.Name == in.node {
+			return nil
+		}
+	}
+	return fmt.Errorf("server on %s is not node %s (members: %v)", in.api, in.node, ml.Members)
 }
